@@ -13,6 +13,12 @@
 //   t <i> <op> ...      L local()   E local(exists)   W<k> work   P<m>:<wk> parallel_for over m indices, every index calls local() (worker threads join)
 //                       the first op of threads 0..pre-1 runs sequentially before the others start (table pre-sized)
 //   at quiescence the main thread runs combine_each / iteration / range / size / combine.
+// variant 3 (life cycle):
+//   ets2 kind=<0|1|2> init=<0 default|1 finit> threads=<n> par=<p> throwat=<k|-1> clear=<0|1>
+//   every scenario thread: phase A = 1-2 local()/local(exists) calls (concurrently); the k-th initialiser call of the whole case throws, its caller
+//   must get that exception and its NEXT local() must run the initialiser again and return a valid element (exists=false);
+//   barrier; thread 0 checks size()/combine_each and, with clear=1, calls clear(); phase B = the same threads call local(exists) again:
+//   after clear() every thread gets a NEW element from a new initialiser call and exists=false.
 #include "oneapi/tbb/collaborative_call_once.h"
 #include "oneapi/tbb/enumerable_thread_specific.h"
 #include "oneapi/tbb/combinable.h"
@@ -81,8 +87,17 @@ static std::string gen_ets(Src& s) {
     return o;
 }
 std::string h_gen(Src& s) {
+    if (drv_flag("--witness-phantom")) return "ets2 kind=" + std::to_string(s.choose(3)) + " init=0 threads=2 par=1 throwat=0 clear=0 w=0 witness=3\n";
     if (drv_flag("--witness") || drv_flag("--witness-allot")) return gen_once(s);
-    return s.choose(2) == 0 ? gen_once(s) : gen_ets(s);
+    uint32_t v = s.weighted({ 4, 3, 2 });
+    if (v == 2) {
+        int nt = 2 + (int)s.choose(4); int kind = (int)s.choose(3); int init = (int)s.choose(2);
+        int par = 1 + (int)s.choose(3);
+        int throwat = s.coin(2) ? (int)s.choose((uint32_t)nt + 1) : -1;
+        return "ets2 kind=" + std::to_string(kind) + " init=" + std::to_string(init) + " threads=" + std::to_string(nt) + " par=" + std::to_string(par) + " throwat=" + std::to_string(throwat) +
+               " clear=" + std::to_string((int)!s.coin(3)) + " w=" + std::to_string(s.range(0, 4)) + "\n";
+    }
+    return v == 0 ? gen_once(s) : gen_ets(s);
 }
 
 // ================================================================== variant 1: collaborative_call_once
@@ -344,8 +359,102 @@ static void run_ets(Case& c) {
     vs_ok();
 }
 
+// ================================================================== variant 3: element life cycle (throwing initialiser, clear())
+struct InitThrow { int n; };
+static long l_inits = 0, l_throwat = -1, l_live = 0, l_excluded = 0; static bool l_witness = false; static std::map<int, int> l_init_by;
+struct LElem {
+    int serial, owner = -1;
+    LElem() : serial((int)l_inits) { long k = l_inits++; l_init_by[vs_self()]++; if (k == l_throwat) throw InitThrow{ (int)k }; l_live++; }
+    LElem(const LElem&) = delete;
+    ~LElem() { l_live--; }
+};
+template <class C> struct LifeRun {
+    C& c; int nt, w; bool do_clear; int phase = 0, arrived = 0; std::map<int, LElem*> mine; long n_threw = 0, n_retry = 0;
+    void first_access(int me, const char* when) {
+        for (int attempt = 0; attempt < 3; attempt++) {
+            int before = l_init_by[me]; bool ex = true; LElem* p = nullptr;
+            try { p = &c.local(ex); }
+            catch (InitThrow&) {
+                n_threw++;
+                if (l_init_by[me] != before + 1) vs_violation("ETS-INIT-COUNT", "thread %d (%s): the throwing local() made %d initialiser calls", me, when, l_init_by[me] - before);
+                continue;       // the element was never created: the next local() must try again
+            }
+            if (attempt) n_retry++;
+            if (!p) vs_violation("ETS-NULL", "thread %d (%s): local() returned a null element%s", me, when, attempt ? " on the call after its initialiser had thrown" : "");
+            if (ex) vs_violation("ETS-EXISTS", "thread %d (%s): local(exists) reported exists=true on the thread's first successful access%s", me, when, attempt ? " after its initialiser had thrown" : "");
+            if (l_init_by[me] != before + 1) vs_violation("ETS-INIT-COUNT", "thread %d (%s): first successful local() made %d initialiser calls, must be exactly 1", me, when, l_init_by[me] - before);
+            for (auto& kv : mine) if (kv.second == p) vs_violation("ETS-SHARED", "threads %d and %d got the same element (%s)", kv.first, me, when);
+            if (p->owner != -1) vs_violation("ETS-SHARED", "thread %d (%s): first access returned an element already owned by thread %d", me, when, p->owner);
+            p->owner = me; mine[me] = p; return;
+        }
+        vs_violation("ETS-INIT-COUNT", "thread %d (%s): local() threw three times, only one initialiser call is planned to throw", me, when);
+    }
+    void again(int me, const char* when) {
+        int before = l_init_by[me]; bool ex = false; LElem* p = &c.local(ex);
+        if (!ex || p != mine[me] || l_init_by[me] != before) vs_violation("ETS-ADDRESS-CHANGED", "thread %d (%s): repeated local() gave exists=%d element %p (first %p) and %d more initialiser calls", me, when, (int)ex, (void*)p, (void*)mine[me], l_init_by[me] - before);
+    }
+    void check(const char* when) {
+        std::map<const LElem*, int> seen; c.combine_each([&seen](const LElem& e) { seen[&e]++; });
+        // known finding C19-ets-throwing-initialiser-phantom-element: the slot of an element whose initialiser threw stays in the container, so size(),
+        // iteration and combine_each include an object that was never constructed.  Outside the witness leg the surplus (at most one per throw) is counted as excluded.
+        if (n_threw && !l_witness && seen.size() > mine.size() && seen.size() <= mine.size() + (size_t)n_threw) { l_excluded++; }
+        else
+        if (seen.size() != mine.size()) vs_violation(n_threw ? "ETS-PHANTOM-ELEMENT" : "ETS-VISIT", "%s: combine_each visited %zu elements, %zu threads own one%s", when, seen.size(), mine.size(), n_threw ? " (an initialiser threw earlier: its never-constructed element is still in the container)" : "");
+        for (auto& kv : mine) if (seen[kv.second] != 1) vs_violation("ETS-VISIT", "%s: the element of thread %d was visited %d times", when, kv.first, seen[kv.second]);
+        if ((long)mine.size() != l_live) vs_violation("ETS-INIT-COUNT", "%s: %ld elements alive, %zu threads own one", when, l_live, mine.size());
+    }
+    void thread(int t) {
+        int me = vs_self(); vs_work(w ? (t * 7) % (w + 1) : 0);
+        first_access(me, "phase A"); if (t & 1) { vs_work(1); again(me, "phase A"); }
+        arrived++;
+        if (t == 0) {
+            vs_block_until([this] { return arrived == nt; });
+            check("after phase A");
+            if (do_clear) { c.clear(); mine.clear(); if (l_live != 0) vs_violation("ETS-INIT-COUNT", "clear() left %ld elements alive", l_live); }
+            phase = 1;
+        } else vs_block_until([this] { return phase == 1; });
+        vs_work(w ? (t * 3) % (w + 1) : 0);
+        if (do_clear) first_access(me, "after clear()"); else again(me, "phase B");
+        again(me, "phase B, second call");
+    }
+    static void tramp(void* p) { auto* a = (std::pair<LifeRun*, int>*)p; a->first->thread(a->second); }
+    void run() {
+        std::vector<std::pair<LifeRun*, int>> args; args.reserve(16); std::vector<int> ids;
+        for (int t = 0; t < nt; t++) args.push_back({ this, t });
+        for (int t = 1; t < nt; t++) ids.push_back(vs_thread_start(tramp, &args[(size_t)t]));
+        thread(0);
+        for (int id : ids) vs_thread_join(id);
+        vs_wait_quiescent();
+        check("at the end");
+    }
+};
+static void run_ets2(Case& c) {
+    const std::string& l = c.lines[0];
+    int kind = (int)kvl(l, "kind", 0), init = (int)kvl(l, "init", 0), nt = (int)kvl(l, "threads", 2), par = (int)kvl(l, "par", 2); l_throwat = kvl(l, "throwat", -1);
+    bool clr = kvl(l, "clear", 0) != 0; int w = (int)kvl(l, "w", 0); l_witness = kvl(l, "witness", 0) != 0;
+    if (nt < 1 || nt > 8) vs_inconclusive("BAD-CASE", "threads");
+    vs_begin(c.sched.c_str());
+    tbb::global_control gc(tbb::global_control::max_allowed_parallelism, (size_t)par);
+    typedef tbb::enumerable_thread_specific<LElem, tbb::cache_aligned_allocator<LElem>, tbb::ets_no_key> E0;
+    typedef tbb::enumerable_thread_specific<LElem, tbb::cache_aligned_allocator<LElem>, tbb::ets_key_per_instance> E1;
+    typedef tbb::combinable<LElem> E2;
+    long threw = 0, retried = 0;
+    // finit constructs the element in place (guaranteed elision): no copy of LElem is needed
+    auto finit = [] { return LElem(); };
+    if (kind == 0) { E0* e = init ? new E0(finit) : new E0(); LifeRun<E0> r{ *e, nt, w, clr }; r.run(); threw = r.n_threw; retried = r.n_retry; }
+    else if (kind == 1) { E1* e = init ? new E1(finit) : new E1(); LifeRun<E1> r{ *e, nt, w, clr }; r.run(); threw = r.n_threw; retried = r.n_retry; }
+    else { E2* e = init ? new E2(finit) : new E2(); LifeRun<E2> r{ *e, nt, w, clr }; r.run(); threw = r.n_threw; retried = r.n_retry; }
+    vs_end();
+    static const char* kn[] = { "ets_no_key", "ets_key_per_instance", "combinable" };
+    vs_stat_flag(kn[kind]); vs_stat_flag("ets_life_cycle"); if (clr) vs_stat_flag("ets_clear_then_local"); if (threw) vs_stat_flag("ets_initialiser_threw"); if (retried) vs_stat_flag("ets_retry_after_throw");
+    if (l_excluded) { vs_stat_add("n_excluded", l_excluded); vs_stat_flag("excluded_phantom_element_after_throwing_initialiser"); }
+    vs_stat_add("n_init_throws", threw); vs_stat_add("nt", (clr || threw) ? 1 : 0);
+    vs_ok();
+}
+
 void h_run(Case& c) {
     if (c.lines.empty()) vs_inconclusive("BAD-CASE", "empty case");
+    if (c.lines[0].rfind("ets2", 0) == 0) { run_ets2(c); return; }
     if (c.lines[0].rfind("once", 0) == 0) run_once(c); else run_ets(c);
 }
 
